@@ -227,7 +227,7 @@ var listenTCP = &net.TCPAddr{IP: net.IPv4(198, 51, 100, 1).To4(), Port: 4001}
 
 func TestInboundUpgrader(t *testing.T) {
 	name := t.Name()
-	hx.Check(t, 400, 10000, 0, func(rt *rapid.T) {
+	hx.Check(t, 1200, 25000, 0, func(rt *rapid.T) {
 		w := drawWorld(rt)
 		sc := drawInScenario(rt, w)
 		var (
@@ -244,7 +244,7 @@ func TestInboundUpgrader(t *testing.T) {
 			m := newModel()
 			var ob obs
 			for _, o := range sc.setup {
-				runOp(rt, g, st, w, m, o, &ob, &hist)
+				runOp(rt, g, st, w, m, o, &ob, &hist, false)
 			}
 			if sc.reopen {
 				if g, err = conngater.NewBasicConnectionGater(st); err != nil {
@@ -283,7 +283,7 @@ func TestInboundUpgrader(t *testing.T) {
 
 			for ai, at := range sc.attempts {
 				for _, o := range at.ops {
-					runOp(rt, g, st, w, m, o, &ob, &hist)
+					runOp(rt, g, st, w, m, o, &ob, &hist, false)
 				}
 				ip := w.ips[at.ip]
 				remoteID := keys.Ed(20 + at.peer)
